@@ -128,6 +128,9 @@ type Exec struct {
 	Data map[string]interface{}
 }
 
+// Steps returns the number of scheduler steps of the execution.
+func (e *Exec) Steps() int { return e.steps }
+
 // E is the current execution; nil means free mode (shims pass through).
 var E *Exec
 
